@@ -365,6 +365,7 @@ func (s *S) Check(c *scen.Ctx, res *simrt.Result) {
 	}
 	// a stalled goroutine (injected slow-node fault) may miss its turn and then wait
 	// for one more connection attempt made by somebody else
+	dials := simnet.Dials()
 	slack := 60*time.Millisecond + s.writeTO/20 + res.StallTotal + time.Duration(res.Stalls)*s.dialTO
 	for _, cl := range s.calls {
 		if !cl.done {
@@ -373,7 +374,15 @@ func (s *S) Check(c *scen.Ctx, res *simrt.Result) {
 			continue
 		}
 		dur := cl.t1 - cl.t0
-		bound := cl.deadline + s.dialTO + slack
+		// the connection-establishment bound only applies when a connection was being
+		// established while the call was in progress
+		bound := cl.deadline + slack
+		for _, d := range dials {
+			if d.Time+s.dialTO >= cl.t0 && d.Time <= cl.t1 {
+				bound = cl.deadline + s.dialTO + slack
+				break
+			}
+		}
 		if dur > bound {
 			c.Fail("C09", "deadline-exceeded", "err="+errClass(cl.err), "call %d/%d took %v; effective deadline %v (%s) + dial time-out %v + slack %v = %v; outcome: %v; %d concurrent callers, address fault %q",
 				cl.caller, cl.k, dur, cl.deadline, cl.kind, s.dialTO, slack, bound, cl.err, s.ncallers, s.addrFault)
